@@ -5,3 +5,4 @@ import UmapProofs.AssembleLemmas
 import UmapProofs.SrcLemmas
 import UmapProofs.SrcLemmasD
 import UmapProofs.SrcLemmasE
+import UmapProofs.SparseSrcSpec
